@@ -3,6 +3,10 @@ package main
 import (
 	"bytes"
 	"fmt"
+	"runtime"
+	"runtime/debug"
+
+	segment "github.com/blevesearch/scorch_segment_api/v2"
 
 	"verif/harness/model"
 	"verif/harness/oracle"
@@ -18,7 +22,7 @@ func init() {
 
 // C01 — built segment answers every term query as the batch dictates.
 func c01(c *Ctx) {
-	n := c.N(3200, 60000)
+	n := c.N(3200, 240000)
 	tallEvery := c.N(100, 150)
 	for i := 0; i < n; i++ {
 		if !c.Mine(i) {
@@ -85,7 +89,7 @@ func modeClass(m uint32) string {
 // C02 — stored fields, ids and id lookup round-trip.
 func c02(c *Ctx) {
 	installValidator()
-	n := c.N(2400, 40000)
+	n := c.N(2400, 160000)
 	tallEvery := c.N(200, 250)
 	for i := 0; i < n; i++ {
 		if !c.Mine(i) {
@@ -190,7 +194,7 @@ var dvChunks = []uint32{1, 2, 3, 5, 8, 1024, 4, 7, 16}
 
 // C03 — doc values return exactly each document's terms.
 func c03(c *Ctx) {
-	n := c.N(1500, 20000)
+	n := c.N(1500, 120000)
 	for i := 0; i < n; i++ {
 		if !c.Mine(i) {
 			continue
@@ -296,6 +300,20 @@ func c03(c *Ctx) {
 	}
 }
 
+var (
+	c04gc, c04procs = 100, 1
+	c04inRamp       bool
+)
+
+var c04ramp = []string{"ramp10", "ramp10", "ramp13", "one", "ramp10", "ramp10", "ramp16", "one", "ramp10", "ramp10", "ramp19", "one", "ramp10", "ramp10", "ramp115", "one", "small"}
+
+// the in-memory segment kept alive across the next case of C04
+var (
+	c04held    segment.Segment
+	c04heldImg []byte
+	c04heldTag string
+)
+
 // C04 — persisted and re-opened ≡ in-memory.
 func c04(c *Ctx) {
 	n := c.N(1200, 16000)
@@ -319,6 +337,26 @@ func c04(c *Ctx) {
 		if class == "tall" {
 			forceDV(b, rng)
 		}
+		inRamp := c.NShards > 0 && i%c.NShards == 5%c.NShards && i/c.NShards < len(c04ramp)
+		if inRamp {
+			// consecutive cases of one worker: same document count, growing documents, each
+			// followed by a one-document batch (the previous in-memory segment stays alive
+			// during the next build, see below)
+			b, class = histBatch(rng, c04ramp[i/c.NShards], ""), "ramp"
+			mode = 1026 // one chunk mode for the whole ramp: sizes grow as intended
+		}
+		if inRamp != c04inRamp {
+			// consecutive builds share one pooled builder only if no collection empties the
+			// pool and the goroutine stays on one P in between: both are arranged for the
+			// duration of the ramp
+			if inRamp {
+				c04gc, c04procs = debug.SetGCPercent(-1), runtime.GOMAXPROCS(1)
+			} else {
+				debug.SetGCPercent(c04gc)
+				runtime.GOMAXPROCS(c04procs)
+			}
+			c04inRamp = inRamp
+		}
 		if i%97 == 96 {
 			// body (or whole image) exactly at a power of two
 			zx.SetChunkMode(mode)
@@ -340,7 +378,23 @@ func c04(c *Ctx) {
 				c.R.Fail("build-err", "%s: %v", id, err)
 				return
 			}
-			defer seg.Close()
+			// the in-memory segment of the previous case is still alive: building this
+			// one must not have changed it
+			if c04held != nil {
+				var hb bytes.Buffer
+				if _, err := writeTo(c04held, &hb); err != nil || !bytes.Equal(hb.Bytes(), c04heldImg) {
+					c.R.Fail("earlier-segment-changed", "%s: the in-memory segment of %s emits a different image after this build (err %v, %d vs %d bytes)", id, c04heldTag, err, hb.Len(), len(c04heldImg))
+				}
+				c.R.Inc("earlier_segments_rechecked_after_a_later_build", 1)
+				c04held.Close()
+				c04held = nil
+			}
+			keep := false
+			defer func() {
+				if !keep {
+					seg.Close()
+				}
+			}()
 			p := c.Scratch.Path("c04")
 			defer removeFile(p)
 			if err := zx.Persist(seg, p); err != nil {
@@ -348,6 +402,9 @@ func c04(c *Ctx) {
 				return
 			}
 			data := readFile(p)
+			if !VecBuild && len(data) < 1<<20 {
+				defer func() { c04held, c04heldImg, c04heldTag, keep = seg, data, id, true }()
+			}
 			var buf bytes.Buffer
 			nw, err := writeTo(seg, &buf)
 			if err != nil {
